@@ -24,6 +24,13 @@ type ctx struct {
 	typeIDs map[string]int
 	assumptionsUsed map[string]bool
 	defNames map[string]bool
+	usesIx bool
+	facts []symFact // facts about heap symbols (value ranges), rendered when the symbol is used
+}
+
+type symFact struct {
+	sym string
+	t   *T
 }
 
 type structInfo struct {
@@ -496,12 +503,28 @@ func (c *ctx) arith(op token.Token, x, y *T, t types.Type, ovf *[]overflowCheck)
 			return app("bvsub", s, x, y)
 		case token.MUL:
 			return app("bvmul", s, x, y)
-		case token.QUO:
-			if signed {
-				return app("bvsdiv", s, x, y)
+		case token.QUO, token.REM:
+			// division by a constant power of two: shifts instead of a divider circuit
+			if v, ok := numeralValue(y); ok && v.Sign() > 0 && new(big.Int).And(v, new(big.Int).Sub(v, big.NewInt(1))).Sign() == 0 && v.BitLen() <= w-1 {
+				k := c.intConst(int64(v.BitLen()-1), w)
+				var q *T
+				if signed {
+					neg := app("bvslt", "Bool", x, c.intConst(0, w))
+					q = mkIte(neg, app("bvneg", s, app("bvlshr", s, app("bvneg", s, x), k)), app("bvlshr", s, x, k))
+				} else {
+					q = app("bvlshr", s, x, k)
+				}
+				if op == token.QUO {
+					return q
+				}
+				return app("bvsub", s, x, app("bvshl", s, q, k))
 			}
-			return app("bvudiv", s, x, y)
-		case token.REM:
+			if op == token.QUO {
+				if signed {
+					return app("bvsdiv", s, x, y)
+				}
+				return app("bvudiv", s, x, y)
+			}
 			if signed {
 				return app("bvsrem", s, x, y)
 			}
@@ -539,21 +562,83 @@ func (c *ctx) arith(op token.Token, x, y *T, t types.Type, ovf *[]overflowCheck)
 	case token.REM:
 		q := c.truncDiv(x, y)
 		return app("-", "Int", x, app("*", "Int", y, q))
-	case token.AND:
-		// only constant masks of the form 2^k-1 on non-negative values, or single-bit tests
-		if v, ok := numeralValue(y); ok && !signed {
-			v1 := new(big.Int).Add(v, big.NewInt(1))
-			if v1.BitLen() > 0 && new(big.Int).And(v1, v).Sign() == 0 {
-				return app("mod", "Int", x, atom(v1.String(), "Int"))
-			}
-			// single bit 2^k: (x div 2^k mod 2) * 2^k
-			if v.Sign() > 0 && new(big.Int).And(v, new(big.Int).Sub(v, big.NewInt(1))).Sign() == 0 {
-				return app("*", "Int", app("mod", "Int", app("div", "Int", x, atom(v.String(), "Int")), atom("2", "Int")), atom(v.String(), "Int"))
+	case token.AND, token.OR, token.XOR, token.AND_NOT:
+		if op == token.AND_NOT {
+			return c.arith(token.AND, x, c.bitnot(y, t), t, ovf)
+		}
+		if x.bit != nil && y.bit == nil {
+			x, y = y, x
+		}
+		if _, ok := numeralValue(x); ok && y.bit == nil {
+			if _, ok2 := numeralValue(y); !ok2 {
+				x, y = y, x
 			}
 		}
-		if v, ok := numeralValue(x); ok && !signed {
-			_ = v
-			return c.arith(op, y, x, t, ovf)
+		if op == token.AND && !signed {
+			if v, ok := numeralValue(y); ok {
+				v1 := new(big.Int).Add(v, big.NewInt(1))
+				if new(big.Int).And(v1, v).Sign() == 0 {
+					// mask 2^k-1
+					return app("mod", "Int", x, atom(v1.String(), "Int"))
+				}
+				if v.Sign() > 0 && new(big.Int).And(v, new(big.Int).Sub(v, big.NewInt(1))).Sign() == 0 {
+					// single constant bit
+					return app("*", "Int", app("mod", "Int", app("div", "Int", x, atom(v.String(), "Int")), atom("2", "Int")), atom(v.String(), "Int"))
+				}
+			}
+		}
+		if y.bit != nil && !signed && y.bit.w == w {
+			// y is 1<<n or ^(1<<n) with symbolic n: case split over the bit index
+			n := y.bit.n
+			bitSet := func(i int) *T {
+				return mkEq(app("mod", "Int", app("div", "Int", x, atom(pow2(i).String(), "Int")), atom("2", "Int")), atom("1", "Int"))
+			}
+			p := func(i int) *T { return atom(pow2(i).String(), "Int") }
+			var branch func(i int) *T
+			switch {
+			case op == token.AND && !y.bit.neg: // test bit
+				branch = func(i int) *T { return mkIte(bitSet(i), p(i), atom("0", "Int")) }
+			case op == token.AND && y.bit.neg: // clear bit
+				branch = func(i int) *T { return mkIte(bitSet(i), app("-", "Int", x, p(i)), x) }
+			case op == token.OR && !y.bit.neg: // set bit
+				branch = func(i int) *T { return mkIte(bitSet(i), x, app("+", "Int", x, p(i))) }
+			case op == token.XOR && !y.bit.neg: // toggle
+				branch = func(i int) *T { return mkIte(bitSet(i), app("-", "Int", x, p(i)), app("+", "Int", x, p(i))) }
+			}
+			if branch != nil {
+				// n >= w: 1<<n is 0 (and its complement all ones)
+				var r *T
+				switch {
+				case op == token.AND && !y.bit.neg:
+					r = atom("0", "Int")
+				default:
+					r = x
+				}
+				for i := w - 1; i >= 0; i-- {
+					r = mkIte(mkEq(n, atom(fmt.Sprint(i), "Int")), branch(i), r)
+				}
+				return r
+			}
+		}
+		if w <= 16 && !signed {
+			// general bitwise operator on a narrow unsigned type: bit by bit
+			var sum []*T
+			for i := 0; i < w; i++ {
+				bx := app("mod", "Int", app("div", "Int", x, atom(pow2(i).String(), "Int")), atom("2", "Int"))
+				by := app("mod", "Int", app("div", "Int", y, atom(pow2(i).String(), "Int")), atom("2", "Int"))
+				var on *T
+				one := atom("1", "Int")
+				switch op {
+				case token.AND:
+					on = mkAnd(mkEq(bx, one), mkEq(by, one))
+				case token.OR:
+					on = mkOr(mkEq(bx, one), mkEq(by, one))
+				case token.XOR:
+					on = mkNot(mkEq(bx, by))
+				}
+				sum = append(sum, mkIte(on, atom(pow2(i).String(), "Int"), atom("0", "Int")))
+			}
+			return app("+", "Int", sum...)
 		}
 	}
 	panic(unsupported("int-mode operator " + op.String() + " (use mode bv)"))
@@ -606,7 +691,7 @@ func (c *ctx) shift(op token.Token, x, y *T, tx, ty types.Type) *T {
 		}
 		return mkIte(big, sat, r)
 	}
-	// int mode: constant shift counts only
+	// int mode
 	if v, ok := numeralValue(y); ok && v.IsInt64() && v.Int64() < 63 {
 		p := atom(pow2(int(v.Int64())).String(), "Int")
 		switch op {
@@ -616,7 +701,33 @@ func (c *ctx) shift(op token.Token, x, y *T, tx, ty types.Type) *T {
 			return app("div", "Int", x, p) // floor division = arithmetic shift
 		}
 	}
-	panic(unsupported("int-mode shift by non-constant (use mode bv)"))
+	// variable shift count: case split over 0..w-1, saturating at w (Go: count >= width gives 0 / sign fill)
+	var r *T
+	pw := atom(pow2(w).String(), "Int")
+	if op == token.SHL {
+		r = atom("0", "Int")
+	} else {
+		r = app("div", "Int", x, pw)
+	}
+	for i := w - 1; i >= 0; i-- {
+		p := atom(pow2(i).String(), "Int")
+		var b *T
+		if op == token.SHL {
+			b = c.wrap(app("*", "Int", x, p), w, signed)
+		} else {
+			b = app("div", "Int", x, p)
+		}
+		if i == 0 {
+			b = x
+		}
+		r = mkIte(mkEq(y, atom(fmt.Sprint(i), "Int")), b, r)
+	}
+	if op == token.SHL {
+		if v, ok := numeralValue(x); ok && v.Cmp(big.NewInt(1)) == 0 && !signed {
+			r = &T{op: r.op, args: r.args, sort: r.sort, bit: &bitMeta{n: y, w: w}}
+		}
+	}
+	return r
 }
 
 func (c *ctx) cmp(op token.Token, x, y *T, t types.Type) *T {
@@ -736,7 +847,11 @@ func (c *ctx) bitnot(x *T, t types.Type) *T {
 	if signed {
 		return app("-", "Int", app("-", "Int", x), atom("1", "Int"))
 	}
-	return app("-", "Int", atom(new(big.Int).Sub(pow2(w), big.NewInt(1)).String(), "Int"), x)
+	r := app("-", "Int", atom(new(big.Int).Sub(pow2(w), big.NewInt(1)).String(), "Int"), x)
+	if x.bit != nil && !x.bit.neg {
+		r.bit = &bitMeta{n: x.bit.n, w: x.bit.w, neg: true}
+	}
+	return r
 }
 
 // fpOf interprets an IEEE bit pattern as a floating-point number
@@ -745,4 +860,15 @@ func fpOf(bits *T, w int) *T {
 		return app("(_ to_fp 11 53)", "(_ FloatingPoint 11 53)", bits)
 	}
 	return app("(_ to_fp 8 24)", "(_ FloatingPoint 8 24)", bits)
+}
+
+// ix is the element index off+k of a slice access. In int mode it is an
+// uninterpreted function with the defining axiom (ix o k) = o + k (pattern-triggered),
+// so that quantified facts about slice elements have arithmetic-free triggers.
+func (c *ctx) ix(off, k *T) *T {
+	if c.bv {
+		return app("bvadd", c.intSort(), off, k)
+	}
+	c.usesIx = true
+	return app("ix", "Int", off, k)
 }
